@@ -148,6 +148,17 @@ def generate(rng, tier):
             d = hx(md_string(rng)) if (rng.below(8) or circles == "-") else "-"
             paths += ["P", op, d, circles]
         g["converter-random"].append("MDP %s %s %s %s %s" % (size, ox, oy, out, " ".join(paths)))
+    # many paths with many distinct opacities in one icon: one register per distinct opacity, reused afterwards
+    g["converter-many-opacities"] = []
+    for _ in range(n // 20):
+        pool = [C.fh(x) for x in (0.1, 0.2, 0.3, 0.4, 0.5, 0.6, 0.7, 0.8)]
+        k = rng.range(3, 8)
+        ops = pool[:k] if rng.below(2) else [rng.choice(pool) for _ in range(k)]
+        ops += [rng.choice(ops) for _ in range(rng.range(1, 3))] + rng.choice([[], ["-"], [C.fh(1.0)]])
+        paths = []
+        for op in ops:
+            paths += ["P", op, hx(md_string(rng)), "-"]
+        g["converter-many-opacities"].append("MDP %s %s %s %s %s" % (C.fh(24.0), C.fh(0.0), C.fh(0.0), C.fh(48.0), " ".join(paths)))
     for s in ("M20 4H4c-1.1 0-2 .9-2 2v12c0 1.1.9 2 2 2h16c1.1 0 2-.9 2-2V6c0-1.1-.9-2-2-2zm0 14H4V8l8 5 8-5v10zm-8-7L4 6h16l-8 5z",
               "M12 2C6.48 2 2 6.48 2 12s4.48 10 10 10 10-4.48 10-10S17.52 2 12 2zm1 15h-2v-6h2v6zm0-8h-2V7h2v2z",
               "M16 34h22v4H16z", "M6 19c0 1.1.9 2 2 2h8c1.1 0 2-.9 2-2V7H6v12zM19 4h-3.5l-1-1h-5l-1 1H5v2h14V4z"):
